@@ -116,7 +116,7 @@ func rcvHandleSegmentTable() []taggedSpec {
 			Why: "an acceptable but not yet consumable segment is parked in the sequence-ordered heap (if the out-of-order budget allows)"}},
 		{"C01", SiteSpec{Kind: "call", Target: "(*tcp.receiver).consumeSegment", Args: []string{"$0", p0, p0 + ".sequenceNumber", "buffer.VectorisedView.Size(" + p0 + ".data)"}, N: 1,
 			Guards: []string{"!$0.closed", acc, cons, "(0 < tcp.segmentHeap.Len($0.pendingRcvdSegments))", "!seqnum.Value.LessThan(seqnum.Value.Add(" + p0 + ".sequenceNumber, (buffer.VectorisedView.Size(" + p0 + ".data) - 1)), $0.rcvNxt)"},
-			Why: "after the gap closed, each parked segment (heap minimum) is consumed with ITS OWN sequence number and ITS OWN length; wholly acknowledged ones are skipped"}},
+			Why:    "after the gap closed, each parked segment (heap minimum) is consumed with ITS OWN sequence number and ITS OWN length; wholly acknowledged ones are skipped"}},
 		{"C01", SiteSpec{Kind: "call", Target: "container/heap.Pop", Args: []string{"&$0.pendingRcvdSegments"}, Guards: []string{"!$0.closed", acc, cons, "(0 < tcp.segmentHeap.Len($0.pendingRcvdSegments))"}, Exact: true, N: 1,
 			Why: "a parked segment leaves the heap only inside the drain loop (consumed or already acknowledged)"}},
 		{"C01 C05", SiteSpec{Kind: "call", Target: "(*tcp.sender).sendAck", Args: []string{"$0.ep.snd"}, Guards: []string{"!$0.closed", "!" + acc}, Exact: true, N: 1, Why: "an unacceptable segment only triggers an ACK (RFC 793 p.37)"}},
